@@ -287,6 +287,21 @@ pub fn run_shard(ctx: &mut Ctx) {
         }
     }
     ctx.end_phase();
+    // the built-in channel callback shared by several flushes, read late
+    {
+        ctx.begin_phase(0.1);
+        let n = if ctx.tier == Tier::Quick { 12 } else { 1000 };
+        for _ in 0..n {
+            if !ctx.time_left() {
+                break;
+            }
+            match crate::props::pvote::shared_channel_round(r.next()) {
+                Ok(k) => ctx.out.count("callbacks_received_over_a_shared_bounded_channel", k),
+                Err(vi) => ctx.out.viol(vi),
+            }
+        }
+        ctx.end_phase();
+    }
     // single flushes of several MiB
     {
         let n = if ctx.tier == Tier::Quick { 2 } else { 40 };
